@@ -691,11 +691,13 @@ def gen_backward_case(case_seed: int):
     U, u_pattern = sparse_U_np(rng, g, n, 3.0)
     psi = g.normal(size=2 ** n) + 1j * g.normal(size=2 ** n)
     psi /= np.linalg.norm(psi)
+    psi_norm = rng.choice([1.0, 1.0, 1.0, 0.5, 2.0, 1.3])    # un-normalised inputs: the map is linear in psi, gradients must follow
+    psi = psi * psi_norm
     gv = (g.normal(size=2 ** n) + 1j * g.normal(size=2 ** n)) * rng.choice([1.0, 0.1, 10.0])
     dt = rng.choice([0.002, 0.01, 0.05, 0.2, 0.5, 1.0])
     tol = 10.0 ** (-rng.randint(8, 12))
     return dict(n=n, om=om, de=de, ph=ph, U=U, psi=psi, g=gv, dt=dt, tol=tol, case_seed=case_seed, zero_phase=zero_phase,
-                u_pattern=u_pattern)
+                u_pattern=u_pattern, psi_norm=psi_norm)
 
 
 def dense_backward(c):
@@ -723,7 +725,12 @@ def dense_backward(c):
     return out
 
 
+UNNORM_CLASS = "sv-param-grads-scaled-by-inverse-norm-of-unnormalised-input-state"
+
+
 def eval_backward_case(c):
+    """(excess, detail, ratio, klass). klass = UNNORM_CLASS iff the input state is not normalised, the comparison fails, and the
+    failure is EXACTLY the known one: every parameter gradient times ||psi|| passes, and so does the state gradient as it is."""
     np, torch = _np()
     from harness import compat
     compat.install()
@@ -737,35 +744,48 @@ def eval_backward_case(c):
         L = torch.vdot(gv, out).real
         grads = torch.autograd.grad(L, [om, de, ph, U, st], allow_unused=True)
     except Exception as e:
-        return float("inf"), f"raised {type(e).__name__}: {e}", None
+        return float("inf"), f"raised {type(e).__name__}: {e}", None, None
     ref = dense_backward(c)
     gn = float(np.linalg.norm(c["g"]))
+    pn = float(np.linalg.norm(c["psi"]))
     A = ref.pop("A")
-    a_eff = min(float(np.linalg.norm(A @ c["psi"])), float(np.linalg.norm(A @ c["g"])) / gn)
+    a_eff = min(float(np.linalg.norm(A @ c["psi"])) / pn, float(np.linalg.norm(A @ c["g"])) / gn)
     amp = max(1.0, 0.1 / max(a_eff, 1e-300))
-    worst, detail, wr = -float("inf"), "", 0.0
-    for name, got in zip(["omega", "delta", "phi", "U", "state"], grads):
+    names = ["omega", "delta", "phi", "U", "state"]
+    for name, got in zip(names, grads):
         if got is None:
-            return float("inf"), f"no gradient for {name}", None
-        got = got.detach().numpy()
-        want = ref[name]
-        if got.shape != want.shape:
-            return float("inf"), f"gradient of {name} has shape {got.shape}", None
-        op_norm = max(1.0, float(np.abs(c["om"]).max()) / 2) if name == "phi" else 1.0
-        sc = c["dt"] * gn * op_norm if name != "state" else gn
-        allow = TOL_BW * c["tol"] * amp * sc + (TOL_EXACT + KERNEL_CAP) * sc
-        dev = float(np.abs(got - want).max())
-        ratio = dev / allow * TOL_BW
-        wr = max(wr, ratio)
-        ex = dev - allow
-        if ex > worst:
-            idx = np.unravel_index(int(np.abs(got - want).argmax()), got.shape)
-            worst = ex
-            detail = (f"d/d{name}{list(map(int, idx))}: backward {complex(got[idx]) if name == 'state' else float(got[idx]):.10e} vs dense Frechet derivative "
-                      f"{complex(want[idx]) if name == 'state' else float(want[idx]):.10e} (|diff| {dev:.2e}, allowed {allow:.2e})")
-            if name == "U":
-                detail += f" [current value U{list(map(int, idx))} = {float(c['U'][idx])!r}; {U_NOTE}]"
-    return worst, detail, wr
+            return float("inf"), f"no gradient for {name}", None, None
+        if tuple(got.shape) != ref[name].shape:
+            return float("inf"), f"gradient of {name} has shape {tuple(got.shape)}", None, None
+
+    def compare(param_factor):
+        worst, detail, wr = -float("inf"), "", 0.0
+        for name, got in zip(names, grads):
+            got = got.detach().numpy() * (param_factor if name != "state" else 1.0)
+            want = ref[name]
+            op_norm = max(1.0, float(np.abs(c["om"]).max()) / 2) if name == "phi" else 1.0
+            sc = c["dt"] * gn * pn * op_norm if name != "state" else gn
+            allow = TOL_BW * c["tol"] * amp * sc + (TOL_EXACT + KERNEL_CAP) * sc
+            dev = float(np.abs(got - want).max())
+            wr = max(wr, dev / allow * TOL_BW)
+            if dev - allow > worst:
+                idx = np.unravel_index(int(np.abs(got - want).argmax()), got.shape)
+                worst = dev - allow
+                detail = (f"d/d{name}{list(map(int, idx))}: backward {complex(got[idx]) if name == 'state' else float(got[idx]):.10e} vs dense "
+                          f"Frechet derivative {complex(want[idx]) if name == 'state' else float(want[idx]):.10e} (|diff| {dev:.2e}, allowed {allow:.2e})")
+                if name == "U":
+                    detail += f" [current value U{list(map(int, idx))} = {float(c['U'][idx])!r}; {U_NOTE}]"
+        return worst, detail, wr
+
+    worst, detail, wr = compare(1.0)
+    klass = None
+    if worst > 0 and abs(pn - 1.0) > 1e-9:
+        w2, _, _ = compare(pn)
+        if w2 <= 0:
+            klass = UNNORM_CLASS
+            detail += (f" - input state of norm {pn:.3g}: every parameter gradient is off by exactly the factor 1/||psi|| (times ||psi|| they "
+                       "agree), the state gradient is right")
+    return worst, detail, wr, klass
 
 
 def oracle_backward(rep: Report, seed: int, count: int) -> None:
@@ -774,14 +794,15 @@ def oracle_backward(rep: Report, seed: int, count: int) -> None:
         case_seed = seed * 1000003 + 7 * i + 6
         c = gen_backward_case(case_seed)
         info = dict(kind="dk-backward", n=c["n"], dt=c["dt"], tol=c["tol"], zero_phase=c["zero_phase"], u_pattern=c["u_pattern"],
-                    U=c["U"].tolist(), case_seed=case_seed)
+                    U=c["U"].tolist(), state_norm=c["psi_norm"], case_seed=case_seed)
         rep.hist("dk_backward_U_pattern", c["u_pattern"])
+        rep.hist("dk_backward_state_norm", c["psi_norm"])
         rep.case(key=("dk-backward", case_seed), nontrivial=True, trace=False)
-        ex, detail, ratio = eval_backward_case(c)
-        if ratio is not None:
+        ex, detail, ratio, klass = eval_backward_case(c)
+        if ratio is not None and klass is None:
             worst = max(worst, ratio)
         if ex > 0:
-            rep.fail(f"EvolveStateVector.backward vs dense Frechet derivative: {detail}", info)
+            rep.fail(f"EvolveStateVector.backward vs dense Frechet derivative: {detail}", info, klass=klass)
     rep.extra["dk_backward_cases"] = count
     rep.extra["dk_backward_worst_ratio"] = worst
 
@@ -986,6 +1007,89 @@ def oracle_zero_first_step(rep: Report, seed: int, count: int) -> None:
     rep.extra["dk_zero_step_worst_ratio"] = worst
 
 
+# ------------------------------------------------------------------------------------------------ un-normalised initial state, whole run
+def gen_unnorm_run_case(case_seed: int):
+    np, torch = _np()
+    rng = random.Random(case_seed)
+    n, steps = rng.choice([1, 2, 3]), rng.randint(2, 3)
+    g = np.random.default_rng(rng.getrandbits(48))
+    psi = g.normal(size=2 ** n) + 1j * g.normal(size=2 ** n)
+    psi /= np.linalg.norm(psi)
+    U, _ = sparse_U_np(rng, g, n, 3.0)
+    return dict(n=n, steps=steps, dt=rng.choice([40, 100]), norm=rng.choice([0.5, 2.0, 1.3]), psi=psi, U=U,
+                om=np.abs(g.normal(size=(steps, n))) * 5 + 1, de=g.normal(size=(steps, n)) * 4, ph=g.normal(size=(steps, n)),
+                w=g.normal(size=n), case_seed=case_seed)
+
+
+def eval_unnorm_run_case(c):
+    """a whole emu-sv run (SVBackend, hand-built SequenceData) started from `initial_state = norm * psi`; loss = weighted occupation at
+    the end; autograd w.r.t. omega/delta/phi vs the 4th-order central difference (step 1e-4) in two entries each.
+    -> (problem or None, klass)"""
+    np, torch = _np()
+    from harness import compat
+    compat.install()
+    import pulser.backend as pb
+    from emu_base import SequenceData
+    from emu_base.pulser_adapter import HamiltonianType, _InteractionMatrixCallable
+    from emu_sv import StateVector
+    n, steps, dt = c["n"], c["steps"], c["dt"]
+    t = lambda x: torch.tensor(x, dtype=torch.float64).requires_grad_(True)
+    params = dict(omega=t(c["om"]), delta=t(c["de"]), phi=t(c["ph"]))
+    U, w = torch.tensor(c["U"]), torch.tensor(c["w"])
+    psi0 = torch.tensor(c["psi"] * c["norm"])
+
+    def f():
+        data = SequenceData(params["omega"].to(torch.complex128), params["delta"].to(torch.complex128), params["phi"].to(torch.complex128),
+                            _InteractionMatrixCallable(U, U, 0.0), tuple(f"q{q}" for q in range(n)), tuple([False] * n), [], 0.0,
+                            [float(dt * k) for k in range(steps + 1)], ["r", "g"], HamiltonianType.Rydberg)
+        cfg = compat.sv_config(observables=[pb.Occupation(evaluation_times=[1.0])], dt=dt, krylov_tolerance=1e-12,
+                               initial_state=StateVector(psi0.clone(), gpu=False))
+        return (w * compat.run_sv(data, cfg).get_result("occupation", 1.0)).sum()
+    try:
+        grads = dict(zip(params, torch.autograd.grad(f(), list(params.values()), allow_unused=True)))
+    except Exception as e:
+        return f"raised {type(e).__name__}: {e}", None
+    rng = random.Random(c["case_seed"] ^ 0xFD)
+    h, bad, bad_scaled, first = 1e-4, 0, 0, None
+    for name, p in params.items():
+        if grads[name] is None:
+            return f"no gradient for {name}", None
+        for _ in range(2):
+            idx = (rng.randrange(steps), rng.randrange(n))
+            old = p[idx].item()
+            vals = []
+            with torch.no_grad():
+                for mult in (1, -1, 2, -2):
+                    p[idx] = old + mult * h
+                    vals.append(float(f()))
+                p[idx] = old
+            fd = (8 * (vals[0] - vals[1]) - (vals[2] - vals[3])) / (12 * h)
+            ad = float(grads[name][idx])
+            tolv = 1e-7 + 1e-5 * max(abs(ad), abs(fd))
+            if abs(ad - fd) > tolv:
+                bad += 1
+                first = first or f"d/d{name}{list(idx)}: autograd {ad:.9e} vs finite difference {fd:.9e}"
+            if abs(ad * c["norm"] - fd) > tolv * max(1.0, c["norm"]):
+                bad_scaled += 1
+    if bad == 0:
+        return None, None
+    klass = UNNORM_CLASS if bad_scaled == 0 else None
+    return (f"{first} ({bad} of 6 entries differ; initial state of norm {c['norm']}"
+            + (": every gradient is off by exactly the factor 1/||psi||)" if klass else ")")), klass
+
+
+def oracle_unnormalised_run(rep: Report, seed: int, count: int) -> None:
+    for i in range(count):
+        case_seed = seed * 1000003 + 7 * i + 0
+        c = gen_unnorm_run_case(case_seed)
+        info = dict(kind="dk-unnorm-run", n=c["n"], steps=c["steps"], dt=c["dt"], state_norm=c["norm"], case_seed=case_seed)
+        rep.case(key=("dk-unnorm-run", case_seed), nontrivial=True, trace=False)
+        prob, klass = eval_unnorm_run_case(c)
+        if prob is not None:
+            rep.fail("emu-sv run with an un-normalised initial_state (accepted by StateVector and SVBackend): " + prob, info, klass=klass)
+    rep.extra["dk_unnorm_run_cases"] = count
+
+
 # ------------------------------------------------------------------------------------------------ second Lean stage
 PROP_MODULE = "EmuVerif.Props.C30Frechet"
 AUDIT = "Audit/C30Frechet.lean"
@@ -1043,6 +1147,7 @@ def run(rep: Report, tier: str, seed: int, drv: Driver | None = None) -> None:
     oracle_degenerate(rep, seed, 40 if quick else 400)
     oracle_backward(rep, seed, 40 if quick else 400)
     oracle_zero_first_step(rep, seed, 12 if quick else 120)
+    oracle_unnormalised_run(rep, seed, 2 if quick else 12)
 
 
 def search(rep: Report, seed: int, count: int) -> None:
@@ -1061,10 +1166,18 @@ def replay_one(d: dict) -> int | None:
         return int(ex > 0)
     if k == "dk-backward":
         c = gen_backward_case(d["case_seed"])
-        ex, detail, _ = eval_backward_case(c)
-        print(f"replay: EvolveStateVector.backward on case_seed={d['case_seed']} (n={c['n']}, dt={c['dt']}, tol={c['tol']:.0e}): {detail}",
-              "FAILS" if ex > 0 else "holds now")
-        return int(ex > 0)
+        ex, detail, _, _k = eval_backward_case(c)
+        # a stored input with an un-normalised state on which ONLY the known 1/||psi|| factor remains is not a new failure
+        verdict = "holds now" if ex <= 0 else ("holds now apart from known finding F-frechet-1" if _k == UNNORM_CLASS else "FAILS")
+        print(f"replay: EvolveStateVector.backward on case_seed={d['case_seed']} (n={c['n']}, dt={c['dt']}, tol={c['tol']:.0e}, "
+              f"||psi|| = {c['psi_norm']}): {detail}", verdict)
+        return int(verdict == "FAILS")
+    if k == "dk-unnorm-run":
+        c = gen_unnorm_run_case(d["case_seed"])
+        prob, klass = eval_unnorm_run_case(c)
+        print(f"replay: emu-sv run from an initial state of norm {c['norm']} (case_seed={d['case_seed']}, N={c['n']}):",
+              prob or "gradients equal finite differences", ("FAILS" + (f" [{klass}]" if klass else "")) if prob else "holds now")
+        return int(prob is not None)
     if k == "dk-degenerate":
         c = gen_degenerate_case(d["case_seed"])
         probs = eval_degenerate_case(c)
